@@ -97,3 +97,11 @@ def test_c02_repair_of_deinterleaved_errorfree_codeword_is_identity():
     m = bitarray("110110100110111101001001101110111110101001111100010110000011100011000001111001100110001010011010")
     d = B.deinterleave_all_bits(B.encode(m))
     assert B.repair_if_necessary(bitarray(d), deinterleaved=True) == d
+
+
+def test_c15_negative_zero_sfloatvar_keeps_its_octets():
+    from okdmr.dmrlib.motorola.mbxml import MBXML
+
+    value, end = MBXML.read_sfloatvar(b"\x40\x00", 0)
+    assert end == 2
+    assert MBXML.write_sfloatvar(value, 1) == b"\x40\x00"
